@@ -281,6 +281,10 @@ theorem caseLoop_sound (env : Env) (p : PK) (dflt : E) : ∀ (fuel : Nat) (kept 
 
 /-! ### simplify_coalesce: the comparison branch -/
 
+@[simp] theorem eval_wrapNotSubject (env : Env) (e : E) : eval env (wrapNotSubject e) = eval env e := by
+  cases e <;> simp [wrapNotSubject, eval]
+
+
 theorem ofB3_truth_cmpVal (op : Cmp) (x y : Val) : ofB3 (truth (cmpVal op x y)) = cmpVal op x y := by
   unfold cmpVal; split <;> rfl
 
